@@ -21,7 +21,7 @@ ALLOWED_AFTER_FORGET = {
 }
 
 
-def run(ctx):
+def run(ctx, with_resize=True):
     r = roles(ctx)
     prog = ctx.prog
     root = r.TIMEOUT_GET
@@ -291,6 +291,23 @@ def run(ctx):
 
     # ---- R01.8 (cont.) the limit used is the limit configured ----------------------------------------------------
     builder_plumbing(ctx, 'R01.8', ['max_size', 'config'])
+
+    # ---- R01.10 = the shrink / grow ledger of resize(): once a resize has finished the bound is the new max_size, so the
+    # permits it removes and adds are part of this property too (the capacity-ledger rule R07.5 is C07's known finding D1
+    # and is not repeated here; C02 runs the same rules under R02.9 and does not take them from here a second time)
+    if with_resize:
+        from . import rules_C07
+        n0 = len(ctx.obs)
+        nd0 = list(ctx.not_decided)
+        rules_C07.run(ctx)
+        keep = ctx.obs[:n0]
+        for o in ctx.obs[n0:]:
+            if o['rule'] == 'R07.5':
+                continue
+            o['rule'] = 'R01.10/' + o['rule']
+            keep.append(o)
+        ctx.obs[:] = keep
+        ctx.not_decided[:] = nd0
 
     # ---- R01.9 conservation on every path (effect ledger, dprules/ledger.py) ---------------------------------
     from .ledger_rules import ledger_obligations
